@@ -502,7 +502,7 @@ PLAN["C02"] = {
     "level": "proof",
     "explanation": "panic-freedom and termination obligations (overflow, slice bounds, decreases) of the Verus-readable functions on the dump path are proved "
                    "for all inputs; the stack scanner, mapping lookup and the /dev guard by Kani; SoVersion::parse, the short-copy/top-of-address-space inputs and the "
-                   "/dev FIFO case by native enumeration; ELF parsing totality is C14; sanitize totality is C12",
+                   "/dev FIFO case by native enumeration; ELF parsing totality by the corruption enumeration shared with C14; sanitize totality is C12",
     "verus": [dict(STACK, functions=["get_stack_info", "fill_thread_stack", "crash_thread_references_principal_mapping", "memory_list_stream_write",
                                      "exception_stream_write", "contains_address", "end_address"], tags=["C02"]),
               {"unit": "dir_section", "functions": ["new", "dump_dir_entry", "write_to_file"], "tags": ["C02"], "tiers": Q},
@@ -515,6 +515,8 @@ PLAN["C02"] = {
     "native": [N_PD_TOTAL,
                {"stem": "maps_reader", "filter": "bprime_so_version", "tiers": Q, "tests": {
                    "bprime_so_version_parse_is_total": H("B'", "SoVersion::parse", "every name lib.so.<s>, s over 8 characters (2 non-ASCII), |s| <= 5: 37 449 names")}},
+               {"stem": "module_reader", "filter": "bprime_single", "tiers": Q, "tests": {
+                   "bprime_single_field_corruptions_never_panic": H("B'", "BuildId/SoName::read_from_module (never panics on any bytes where ELF structures are expected)", "every header / program-header / section-header / dynamic field of a hand-built ELF64 image x (14 extremes + every other field's value and its neighbours), and every pair of fields x 5 values: 608 688 parses")}},
                {"stem": "mappings", "filter": "", "tiers": Q, "tests": {
                    "c02_mapped_file_under_dev_is_not_opened": H("B'", "mappings::write", "one mapping named after a FIFO under /dev/shm")}},
                {"stem": "dso_debug", "filter": "bprime", "tiers": Q, "timeout": 600, "tests": {
